@@ -12,7 +12,7 @@ DESCRIPTION = {
              "ApplicationError with the reply's URI/args/kwargs; no other pending result changes state; progressive results reach only that call's on_progress; duplicate / "
              "unknown / wrong-type replies raise ProtocolError and complete nothing.  Exhaustive cross-type job: each of the 6 request kinds pending alone x each of the 5 other reply types x {success form, ERROR form} x 3 "
              "serializers - the wrong-type reply bearing the pending id is a protocol violation and the genuine reply still completes the request.  Enumerated synchronous-router job: the reply (success or ERROR) is delivered while transport.send() of the request is still running, for all "
-             "six kinds: the request completes exactly once, a second copy is rejected.  IdGenerator is checked directly around 2^53.  Non-trivial = >=2 outstanding requests of "
+             "six kinds: the request completes exactly once, a second copy is rejected.  IdGenerator is checked directly around 2^53.  Every wire option of the four option objects (transaction_hash, caller / caller_authid / caller_authrole, forward_for, get_retained, concurrency, force_reregister, the invoke policies) is drawn independently and must be on the request exactly as given (absent ones absent).  Enumerated progress_grid job: 2-3 calls outstanding x subsets with a progress handler x details x every order of progressive results x 2 orders of final results - every progressive result reaches the handler of exactly its own call, nothing completes early.  Non-trivial = >=2 outstanding requests of "
              "different kinds answered in non-issue order; distinct by digest of the operation sequence."),
     "assumptions": ["a progressive result for a call that did not ask for progress is a router fault: ignoring it and rejecting it are both accepted, completing the call with it is not"],
 }
@@ -30,6 +30,7 @@ def plan(tier, seed):
         jobs.append({"func": "crosstype", "fw": fw, "name": "crosstype/" + fw, "args": {}})
         jobs.append({"func": "syncreply", "fw": fw, "name": "syncreply/" + fw, "args": {}})
         jobs.append({"func": "progress_grid", "fw": fw, "name": "progress_grid/" + fw, "args": {}})
+        jobs.append({"func": "repeat_unregister", "fw": fw, "name": "repeat_unregister/" + fw, "args": {}})
     jobs.append({"func": "idgen", "name": "idgen", "args": {"seed": seed * 1000 + 900, "n": 500 if tier == "quick" else 5000}})
     return jobs
 
@@ -270,7 +271,9 @@ class Interp:
         if not live:
             return
         reg = live[k % len(live)]
-        if reg.get("unregistering"):
+        # unregister() may be called again while an earlier UNREGISTER for the same registration is unanswered (the registration stays active
+        # until the reply): every such request is a request of its own and completes with its own reply
+        if reg.get("unregistering", 0) >= 3:
             return
         rid = self.next_id
         before = len(self.w.t.sent)
@@ -280,7 +283,7 @@ class Interp:
             self.fail("unregister-raised|" + exc_key(err), repr(err))
             return
         self.next_id += 1
-        reg["unregistering"] = True
+        reg["unregistering"] = reg.get("unregistering", 0) + 1
         m = self.expect_sent(before, "Unregister", rid)
         if m is not None and m.registration != reg["obj"].id:
             self.fail("unregister-wrong-registration-id", "%r vs %r" % (m.registration, reg["obj"].id))
@@ -675,6 +678,41 @@ def progress_grid(col):
                         col.case(True, enum=True, cls=["progress_grid/%d-calls/%s" % (ncalls, "".join("P" if f else "-" for f in flags))],
                                  sample={"flags": list(flags), "details": details, "progress_order": list(perm), "final_order": list(fin)})
     col.exhaustive.append("C04 progress_grid: 2-3 outstanding calls x progress-handler subsets x details x every order of progressive results x 2 final orders (%d histories)" % n_cases)
+
+
+def repeat_unregister(col):
+    """enumerated: unregister() called 2-3 times on the same registration before any reply (the registration stays active until the router
+    answers), answered in every order with every mix of UNREGISTERED / ERROR: each of the requests completes exactly once with its own reply"""
+    import itertools
+    U = "com.example.a"
+    E = "wamp.error.no_such_registration"
+    n_cases = 0
+    for ser in ("json", "cbor"):
+        for n in (2, 3):
+            for perm in itertools.permutations(range(n)):
+                for kinds in itertools.product(("success", "error"), repeat=n):
+                    i = Interp(col, ser)
+                    try:
+                        i.apply(("register", U, None, None))
+                        i.apply(("reply", 0, "success", [], {}, E))
+                        for _ in range(n):
+                            i.apply(("unregister", 0))
+                        unregs = [r for r in i.reqs if r["kind"] == "unregister"]
+                        if len(unregs) != n:
+                            i.fail("unregister-request-not-issued", "%d of %d unregister() calls on an active registration produced a request" % (len(unregs), n))
+                        done = []
+                        for k in perm:
+                            idx = sorted(set(range(n)) - set(done)).index(k)
+                            i.apply(("reply", idx, kinds[k], [], {}, E))
+                            done.append(k)
+                        for r in unregs:
+                            if r["track"].n != 1:
+                                i.fail("request-not-completed-by-its-reply|unregister|repeated", "unregister request %d completion count %r" % (r["id"], r["track"].n))
+                    finally:
+                        i.teardown()
+                    n_cases += 1
+                    col.case(True, enum=True, cls=["repeat_unregister/%d" % n], sample={"ser": ser, "n": n, "reply_order": list(perm), "replies": list(kinds)})
+    col.exhaustive.append("C04 repeat_unregister: 2-3 outstanding unregister requests for one registration x every reply order x success/error mixes x 2 serializers (%d histories)" % n_cases)
 
 
 def syncreply(col):
